@@ -679,3 +679,159 @@ pub fn spell_dt(d: &Dt, t: &mut Tape) -> String {
     }
     s
 }
+
+
+// ------------------------------------------------------------------------------------------------
+// the Rust-tokenizable sub-grammar (C19): spellings that mean the same to TOML and to rustc's lexer
+// ------------------------------------------------------------------------------------------------
+
+pub const RUST_KEYS: [&str; 16] = ["a", "b", "c", "d", "e", "k", "x", "y", "type", "fn", "a-b", "x_1", "crates-io", "a b", "cfg(windows)", "é"];
+
+pub fn spell_rust_key(k: &str) -> String {
+    let ident_like = |s: &str| !s.is_empty() && s.chars().next().unwrap().is_ascii_alphabetic() && s.chars().all(|c| c.is_ascii_alphanumeric() || c == '_');
+    if k.split('-').all(ident_like) {
+        k.to_string()
+    } else {
+        format!("\"{}\"", k.replace('\\', "\\\\").replace('"', "\\\""))
+    }
+}
+
+pub fn gen_rust_scalar(t: &mut Tape) -> crate::model::Node {
+    use crate::model::Node;
+    match t.weighted(&[4, 3, 2, 3, 3]) {
+        0 => Node::Int(match t.below(3) {
+            0 => t.range(-20, 20),
+            1 => *t.pick(&[i32::MAX as i64, i32::MIN as i64 + 1, 0, 255, 65535, -1]),
+            _ => (t.next() as i32 / 2) as i64,
+        }),
+        1 => {
+            let n = t.small(10);
+            Node::Str((0..n).map(|_| *t.pick(&['a', 'b', ' ', 'é', '1', '-', '_', '"', '\\', '\n', '\t', '\r', '#', '=', '[', '{', '\'', '😀'])).collect())
+        }
+        2 => Node::Bool(t.chance(1, 2)),
+        3 => {
+            let f = match t.below(4) {
+                0 => *t.pick(&[0.0, -0.0, 1.5, -2.25, 1e10, 6.626e-34, 3.0]),
+                1 => f64::from_bits(*t.pick(&FLOAT_EDGES)),
+                2 => (t.range(-1000, 1000) as f64) / 8.0,
+                _ => {
+                    let f = f64::from_bits(t.u64());
+                    if f.is_nan() {
+                        f64::NAN.copysign(f)
+                    } else {
+                        f
+                    }
+                }
+            };
+            Node::float(f)
+        }
+        _ => {
+            let mut d = gen_dt(t);
+            // the macro has no arm for positive offsets
+            if let Some(Off::Min(m)) = d.offset {
+                if m > 0 {
+                    d.offset = Some(Off::Min(-m));
+                }
+            }
+            Node::Dt(d)
+        }
+    }
+}
+
+pub fn spell_rust_scalar(n: &crate::model::Node, t: &mut Tape) -> String {
+    use crate::model::Node;
+    match n {
+        Node::Str(s) => {
+            let mut out = String::from("\"");
+            for c in s.chars() {
+                match c {
+                    '"' => out.push_str("\\\""),
+                    '\\' => out.push_str("\\\\"),
+                    '\n' => out.push_str("\\n"),
+                    '\t' => out.push_str("\\t"),
+                    '\r' => out.push_str("\\r"),
+                    c => out.push(c),
+                }
+            }
+            out.push('"');
+            out
+        }
+        Node::Int(i) => {
+            let v = *i;
+            if v >= 0 {
+                match t.weighted(&[5, 2, 1, 1]) {
+                    0 => {
+                        let sign = *t.pick(&["", "", "+"]);
+                        let d = v.to_string();
+                        let d = if d.len() > 3 && t.chance(1, 3) { format!("{}_{}", &d[..d.len() - 3], &d[d.len() - 3..]) } else { d };
+                        format!("{sign}{d}")
+                    }
+                    1 => format!("0x{v:x}"),
+                    2 => format!("0o{v:o}"),
+                    _ => format!("0b{v:b}"),
+                }
+            } else {
+                format!("{v}")
+            }
+        }
+        Node::Float(b) => {
+            let f = f64::from_bits(*b);
+            if f.is_nan() {
+                return if f.is_sign_negative() { "-nan".into() } else { t.pick(&["nan", "+nan"]).to_string() };
+            }
+            if f.is_infinite() {
+                return if f < 0.0 { "-inf".into() } else { t.pick(&["inf", "+inf"]).to_string() };
+            }
+            let sign = if f.is_sign_negative() { "-" } else { *t.pick(&["", "", "+"]) };
+            let a = f.abs();
+            // shortest digits; plain `d.ddd` or `d.ddde±x`, both valid Rust float literals
+            let body = if a == 0.0 {
+                "0.0".to_string()
+            } else if a >= 1e-5 && a < 1e15 && t.chance(1, 2) {
+                let s = format!("{a}");
+                if s.contains('.') {
+                    s
+                } else {
+                    format!("{s}.0")
+                }
+            } else {
+                let s = format!("{a:e}");
+                // Rust prints 1e10 as "1e10": add a fraction half of the time
+                if !s.contains('.') && t.chance(1, 2) {
+                    s.replacen('e', ".0e", 1)
+                } else {
+                    s
+                }
+            };
+            format!("{sign}{body}")
+        }
+        Node::Bool(b) => b.to_string(),
+        Node::Dt(d) => {
+            let mut s = String::new();
+            if let Some((y, m, dd)) = d.date {
+                s.push_str(&format!("{y:04}-{m:02}-{dd:02}"));
+            }
+            if let Some((h, mi, se, ns)) = d.time {
+                if d.date.is_some() {
+                    s.push(*t.pick(&['T', ' ']));
+                }
+                s.push_str(&format!("{h:02}:{mi:02}:{se:02}"));
+                if ns != 0 {
+                    let f = format!("{ns:09}");
+                    s.push('.');
+                    s.push_str(f.trim_end_matches('0'));
+                }
+            }
+            match d.offset {
+                None => {}
+                Some(Off::Z) => s.push(*t.pick(&['Z', 'z'])),
+                Some(Off::Min(m)) => {
+                    let a = (m as i32).abs();
+                    s.push_str(&format!("-{:02}:{:02}", a / 60, a % 60));
+                }
+            }
+            s
+        }
+        _ => unreachable!(),
+    }
+}
